@@ -134,7 +134,7 @@ PROPS = {
             "modelled after the code: core.Lexer.NextToken with skipWhitespace, readComment, readString (escapes, octal codes, line continuations, nesting), readHexString, readName (#xx), readNumber, readKeyword; core.Parser.nextToken (comments dropped), ParseObject, parseNumber with the two-token lookahead for n g R, parseArray, parseDict; contentstream.Parser.Parse, parseNext, keywordAt, parseOperator, parseOperand, parseNumber, parseString, parseHexString, parseName, parseArray, parseDict, skipWhitespace with comments",
             "strconv.ParseInt(s,10,64) is the C17 atoi model; strconv.ParseFloat is an oracle restricted to sign, digits and one decimal point: reals are kept as exact decimal rationals (mantissa, scale) and the implementation's float64 is mapped back with strconv.FormatFloat, so only literals of at most 15 significant digits are generated; float rounding is outside the theorems",
             "a lexer failure leaves the object parser with a stale lookahead token (its nextToken error is ignored): the model answers 'outside the model' whenever the parser would look at the failing token; such inputs are not generated for this property (C02 owns them)",
-            "PROVED for the object parser: the lexical round trips and the token-level tree round trip. NOT proved for the content stream parser beyond the shared string reader and its name reader: its structural behaviour (operand stack, grouping, arrays, dictionaries, hex strings with blanks between the two digits of a byte) is tied by the differential run and checked by predicates; the statement 'both parsers assign the same value to every operand both accept' is shown on the printed language only (parsers-agree predicate + shared readers), not for all byte strings",
+            "PROVED at byte level for both parsers: the lexical round trips; the token-level tree round trip of the object parser; for the content stream parser every written operand (integers and reals by any lexeme strconv accepts, literal strings, hex strings with blanks between digits, names, keywords, arrays and dictionaries nested to any depth, whitespace and comments between tokens or none where a delimiter separates them) is read as its value (operand_reads_back), every program of operands and operators is read as the same operations, each operator with exactly the operands written before it (content_stream_reads_back), and the document lexer + parser give the same written operand the same value (both_parsers_read_the_same_value). The written language is the hypothesis of these theorems (cok / prog_ok): a numeric, name or keyword token must be followed by whitespace or a delimiter, operators are words of letters, ', \" and * other than true / false / null. Byte strings outside that language (malformed input, a backslash at the very end of the data, '#' escapes without two hex digits where the two name readers differ on purpose) are tied by the differential run and the parsers-agree predicate only",
             "NOT modelled: indirect objects, streams and inline images (BI/ID/EI), ParseIndirectObject, xref",
         ],
         assumptions=["integers within int64; reals without exponent"],
@@ -146,7 +146,7 @@ PROPS = {
             "the byte syntax of cross-reference tables, cross-reference streams, trailers, /Prev chains, object streams and objects is on the implementation's side: the harness writes real files with its own writer (harness/pdfw.go) and hands the model the sections it wrote and what stands at every offset; a parsing error of the implementation therefore shows as a disagreement, it is not excluded by a theorem. Object syntax is C06, stream filters C05",
             "after the SectionReader fix the file position is no longer part of the reader's state; the model has no shared position",
             "a length object that is itself a stream with an indirect length makes the implementation recurse; the model answers 'outside the model' there and the cache-transparency theorem assumes it away (lengths_ok); such files are not generated here (C02 owns hostile files)",
-            "NOT modelled: hybrid-reference files (/XRefStm), /Extends chains of object streams, generation numbers (the reader ignores them), FindXRef / startxref scanning, xref reconstruction",
+            "hybrid-reference files (/XRefStm) enter the model as the sections the implementation must merge, in the order ISO 32000-1 7.5.8.4 prescribes (the table, then the stream it names, then /Prev), written by the harness; NOT modelled: /Extends chains of object streams, generation numbers (the reader ignores them), FindXRef / startxref scanning, xref reconstruction",
         ],
         assumptions=["one startxref chain; sections as written by the harness writer"],
     ),
